@@ -302,6 +302,25 @@ def rules(ctx: Ctx) -> None:
                + ("it computes from its arguments alone" if pure else f"it runs {len([q for q in below if q in prog.funcs])} package function(s) below it"
                   + (" and reads the configuration" if reads_cfg else "") + " - a later run (other default schema, other metadata, other thread) gets the answer of the first"))
 
+        # the memo is keyed by equality and hash of the arguments: 1, True and 1.0 are one key.  Unless the decorator is told `typed=True`, a function
+        # whose answer depends on the TYPE of an argument (tests it, prints it, hands it to a conversion) answers for True what it computed for 1
+        typed = any("typed=True" in d.replace(" ", "") for d in memo)
+        params = [a.arg for a in f.node.args.args + f.node.args.kwonlyargs if a.arg not in ("self", "cls")]
+        type_dep = []
+        for n in prog.walk_fn(f):
+            if isinstance(n, ast.Call) and isinstance(n.func, ast.Name) and n.args and isinstance(n.args[0], ast.Name) and n.args[0].id in params:
+                if n.func.id in ("isinstance", "type", "str", "repr", "format", "bool", "int", "float") or n.func.id in params:
+                    type_dep.append(n)
+            elif isinstance(n, ast.FormattedValue) and isinstance(n.value, ast.Name) and n.value.id in params:
+                type_dep.append(n)
+            elif isinstance(n, ast.Compare) and any(isinstance(op, (ast.Is, ast.IsNot)) for op in n.ops) and any(isinstance(x, ast.Name) and x.id in params for x in [n.left] + n.comparators) \
+                    and not all(isinstance(x, ast.Constant) and x.value is None or isinstance(x, ast.Name) and x.id in params for x in [n.left] + n.comparators):
+                type_dep.append(n)
+        if params:
+            ctx.ob("R12.2", f"memoised-by-equality:{f.owner}", typed or not type_dep, f.loc(),
+                   f"`@{memo[0]}` keys {f.name}'s memo by equality of the arguments" + ("" if typed or not type_dep else
+                   f"; `{u(type_dep[0])[:50]}` makes the answer depend on an argument's type, so equal arguments of different types (1 / True / 1.0) get each other's answers - whichever came first in the process"))
+
     # analyzer is a fresh local per evaluation
     an_defs = [node for kind, node in prog.local_defs(ev, "analyzer")] if prog.local_defs(ev, "analyzer") else []
     ctors = []
